@@ -56,12 +56,18 @@ static Boolean IsWRegCore(char const* pArg, LongWord* pResult) {
         return False;
     }
 
-    *pResult = ConstLongInt(pArg + 1, &OK, 16);
-    if (!OK) {
-        return False;
+    {
+        /* compare before narrowing: s100000001 is not s1 */
+
+        LargeInt Num = ConstLongInt(pArg + 1, &OK, 16);
+
+        if (!OK || (Num < 0) || (Num >= 16)) {
+            return False;
+        }
+        *pResult = (LongWord)Num;
     }
 
-    return (*pResult < 16);
+    return True;
 }
 
 /*!------------------------------------------------------------------------
